@@ -16,6 +16,7 @@ Verdict per case: 'accept' (documented legal request: a graph with the structure
 'refuse' (request that cannot be met / outside the documented range: ValueError resp. CLIError and nothing
 else), 'either' (not determined by the documentation: only "ValueError or a graph of the right shape").
 """
+import contextlib
 import itertools
 import math
 import multiprocessing
@@ -105,7 +106,7 @@ def eval_spec(gt, spec, expect, feat, preds=(), mods=None, save=None, mode=None)
     returns ((key, what) or None, trace)"""
     mode = mode or {'seed': 0}
     where = "{} '{}' [{}]".format(gt, ' '.join(spec), _mode_str(mode))
-    with tempfile.TemporaryDirectory(prefix='c15_') as tmp:
+    with (tempfile.TemporaryDirectory(prefix='c15_') if any(TMP in t for t in spec) else contextlib.nullcontext()) as tmp:
         status, val, trace = _run(gt, spec, mode, tmp)
         if status == 'budget':
             return None, trace
@@ -479,7 +480,7 @@ def save_cases(thorough):
     """`save` comes last: the file must hold the graph that is returned (after all modifiers)"""
     out = []
     specs = {'simple': [T('gnm', 5, 4), T('empty', 3), T('complete', 1), T('grid', 2, 2, 'plantclique', 3),
-                        T('gnp', 5, .5, 'addedges', 2), T('complete', 4, 'splitedges', 2),
+                        T('gnm', 5, 4, 'addedges', 2), T('complete', 4, 'splitedges', 2),
                         T('empty', 5, 'plantclique', 3, 'addedges', 2, 'splitedges', 2)],
              'bipartite': [T('glrd', 3, 4, 2), T('empty', 2, 2), T('complete', 2, 3), T('glrm', 4, 4, 3, 'addedges', 2),
                            T('empty', 3, 3, 'plantbiclique', 2, 2, 'addedges', 1), T('shift', 3, 4, 0, 2)],
